@@ -2,7 +2,7 @@
 From Coq Require Import String Ascii ZArith NArith List Bool Lia.
 From HV Require Import lib.Bytes lib.Obs lib.Monad model.Asgi model.AsgiSpec model.GuardTypes model.HttpStream model.WsStream model.StreamRig
      model.LibH11 model.H11Proto model.WorkerCtx gen.Consts_gen gen.Guards_gen
-     proofs.Stream_proofs proofs.LibH11_proofs proofs.H11_proofs proofs.WorkerCtx_proofs.
+     proofs.Stream_proofs proofs.LibH11_proofs proofs.H11_proofs proofs.WorkerCtx_proofs proofs.Serial_proofs proofs.Capped_proofs.
 Import ListNotations.
 Open Scope N_scope.
 
@@ -26,6 +26,45 @@ Proof. exact recv_request_facts. Qed.
 Print Assumptions C18_keepalive_cap_head.
 Print Assumptions C18_close_token_disables_keep_alive.
 Print Assumptions C18_no_cycle_without_keep_alive.
+
+(* Whole runs: along every run of the protocol from a fresh connection - any reads, any application behaviour, any
+   failing writes - no request is taken on once the connection has counted keep_alive_max_requests of them (and at
+   least one: a maximum below 1 still lets the first request through).  "request-over-limit" is the ghost note the
+   model emits in _create_stream when keep_alive_requests has reached the maximum; the alternative is an event oracle
+   that breaks h11's own contract. *)
+Theorem C18_keepalive_cap_whole_run : forall cfg stream_headers ws_token ws_ext ws_sends sends writes inputs,
+  let outs := concat (map fst (proto_run cfg stream_headers ws_token ws_ext ws_sends (p_init sends writes) inputs)) in
+  In (ONote "h11-contract-violated") outs \/ ~ In (ONote "request-over-limit") outs.
+Proof. intros. apply capped_run, Capped_init. Qed.
+Print Assumptions C18_keepalive_cap_whole_run.
+
+Definition cap_cfg (mx : Z) : h11cfg :=
+  {| c_http := {| cfg_server_names := []; cfg_ssl := false; cfg_trailers_versions := []; cfg_push_versions := []; cfg_hint_versions := [];
+                  cfg_guards := http_app_send_guards |};
+     c_ws := {| wc_http := {| cfg_server_names := []; cfg_ssl := false; cfg_trailers_versions := []; cfg_push_versions := [];
+                              cfg_hint_versions := []; cfg_guards := http_app_send_guards |};
+                wc_max_message := 100; wc_ping_interval := false; wc_guards := ws_app_send_guards |};
+     c_max_requests := mx; c_server_headers := [] |}.
+Definition cap_req := RH (HRequest (B "GET") (B "/") [(B "host", B "x")] (B "1.1")).
+Definition cap_outs (mx : Z) (inputs : list pinput) : list out :=
+  concat (map fst (proto_run (cap_cfg mx) (fun h => h) (fun _ => []) None [] (p_init [] []) inputs)).
+Definition cap_note (s : string) (o : list out) : bool :=
+  existsb (fun x => match x with ONote t => String.eqb s t | _ => false end) o.
+Definition serve_one : list pinput :=
+  [IData [cap_req; RH HEndOfMessage; RH HPaused];
+   IApp (Some (MStart (Some 200%Z) [(HB (B "content-length"), HB (B "0"))] false)) [];
+   IApp (Some (MBody (HB []) false)) []].
+(* the ghost is live: with a maximum of 1, an oracle that hands over a second Request after the first response
+   (h11 cannot: the response carried Connection: close) trips both notes; with a maximum of 2 the same second request
+   is legitimate and trips neither *)
+Example C18_cap_nonvacuous :
+  let over := cap_outs 1 (serve_one ++ [IData [cap_req]]) in
+  cap_note "h11-contract-violated" over = true /\ cap_note "request-over-limit" over = true /\
+  let fine := cap_outs 2 [IData [cap_req; RH HEndOfMessage; RH HPaused];
+                          IApp (Some (MStart (Some 200%Z) [(HB (B "content-length"), HB (B "0"))] false)) [];
+                          IApp (Some (MBody (HB []) false)) [cap_req; RH HEndOfMessage; RH HNeedData]] in
+  cap_note "h11-contract-violated" fine = false /\ cap_note "request-over-limit" fine = false /\ spawns fine = 2%nat.
+Proof. vm_compute. repeat split. Qed.
 
 (* max_requests + jitter: the worker asks to be replaced exactly when it has taken on more than
    max_requests + j requests, for any draw j of the jitter; never without a maximum. *)
